@@ -38,7 +38,9 @@ macro_rules! impl_group {
     ($name:ident, $group:ty, $key:ty, $child:ident, $keyed:expr, $extend:expr) => {
         pub struct $name {
             g: $group,
-            keys: Vec<$key>,
+            /// (key number, key) of every key `insert` returned (the number is cached: reading it goes
+            /// through the key's `Debug` form)
+            keys: Vec<(usize, $key)>,
         }
         impl GroupDyn for $name {
             fn insert(&mut self, label: &str, script: &[Step]) -> (usize, usize) {
@@ -46,7 +48,7 @@ macro_rules! impl_group {
                 let idx = c.idx();
                 let k = self.g.insert(c);
                 let n = key_num(&k);
-                self.keys.push(k);
+                self.keys.push((n, k));
                 (idx, n)
             }
             fn extend(&mut self, scripts: &[(String, Vec<Step>)]) -> Option<Vec<usize>> {
@@ -54,11 +56,11 @@ macro_rules! impl_group {
                 ($extend)(&mut self.g, scripts)
             }
             fn remove(&mut self, key: usize) -> Option<bool> {
-                let k = *self.keys.iter().find(|k| key_num(*k) == key)?;
+                let k = self.keys.iter().find(|k| k.0 == key)?.1;
                 Some(self.g.remove(k))
             }
             fn contains(&mut self, key: usize) -> Option<bool> {
-                let k = *self.keys.iter().find(|k| key_num(*k) == key)?;
+                let k = self.keys.iter().find(|k| k.0 == key)?.1;
                 Some(self.g.contains_key(k))
             }
             fn len(&self) -> usize {
@@ -91,7 +93,14 @@ macro_rules! impl_group {
 fn ext_f(g: &mut FutureGroup<SFut>, scripts: &[(String, Vec<Step>)]) -> Option<Vec<usize>> {
     let futs: Vec<SFut> = scripts.iter().map(|(l, s)| SFut::new(l, s)).collect();
     let idx = futs.iter().map(|f| f.idx()).collect();
-    g.extend(futs);
+    // an odd batch goes through an iterator WITHOUT an upper size bound (`size_hint() == (0, None)`), an even one through the
+    // Vec itself (exact size hint): `Extend::extend` reserves from the hint and must cope with both
+    if futs.len() % 2 == 1 {
+        let mut it = futs.into_iter();
+        g.extend(core::iter::from_fn(move || it.next()));
+    } else {
+        g.extend(futs);
+    }
     Some(idx)
 }
 
